@@ -124,7 +124,7 @@ inductive ARule where
   | style (sels : List (List Tok)) (items : List AItem)
   /-- an unknown at-rule, kept token by token -/
   | unknown (toks : List Tok)
-  /-- media query list (opaque tokens), optional name, nested rules.  `@media` whose parse failed is
+  /-- media query list (opaque tokens), optional name (an empty one is no name), nested rules.  `@media` whose parse failed is
   `media [] none []` (the DOM has the constructor's `all` and no rules) -/
   | media (mq : List Tok) (name : Option Cps) (rules : List ARule)
   | fontface (items : List AItem)
@@ -134,8 +134,10 @@ inductive ARule where
   | import_ (href : Cps) (mq : Option (List Tok)) (name : Option Cps)
   | namespace_ (pfx uri : Cps)
   | charset (encoding : Cps)
-  /-- not interpreted: `@variables`, a margin rule at top level, a `@page` outside the modelled fragment of
-  `MarginRule` -/
+  /-- `@variables`: the variables in order, normalised name × value (opaque tokens) -/
+  | variables (vars : List (Cps × List Tok))
+  /-- not interpreted: a margin rule at top level, a `@page` / `@variables` outside the modelled fragments of
+  `MarginRule` / `CSSVariablesDeclaration` -/
   | other (k : Kind)
   deriving Repr
 
@@ -200,6 +202,10 @@ def SHref.value : SHref → Cps
   | .str _ h => h
   | .url _ _ _ _ h => h
 
+/-- the optional name of `@media` / `@import` (`cssmediarule.py:117-130`, `cssimportrule.py:137-151`): a STRING
+and the gap after it -/
+abbrev SName := Option (Quote × Cps × Gap)
+
 /-- an item of the block of `@page`: a block item or a margin box `@name gap { block }` -/
 inductive SPageItem where
   | item (i : SItem)
@@ -227,8 +233,8 @@ inductive SRule where
   | comment (body : Cps)
   | style (sel : SSel) (block : SBlock)
   | unknown (toks : List Tok)
-  /-- `@media g1 mq g2 { lead rules }` -/
-  | media (kw : Mask) (g1 : Gap) (mq : List Tok) (g2 : Gap) (lead : WGap) (rules : SRules)
+  /-- `@media g1 mq g2 ["name" g3] { lead rules }` -/
+  | media (kw : Mask) (g1 : Gap) (mq : List Tok) (g2 : Gap) (name : SName) (lead : WGap) (rules : SRules)
   /-- `@font-face g1 { block }` -/
   | fontface (kw : Mask) (g1 : Gap) (block : SBlock)
   /-- `@page g0 sel g1 { block }` -/
@@ -243,8 +249,8 @@ end
 inductive SImp where
   | comment (body : Cps)
   | unknown (toks : List Tok)
-  /-- `@import g1 href g2 [mq g3] ;` -/
-  | import_ (kw : Mask) (g1 : Gap) (href : SHref) (g2 : Gap) (mq : Option (List Tok × Gap))
+  /-- `@import g1 href g2 [mq g3] ["name" g4] ;` -/
+  | import_ (kw : Mask) (g1 : Gap) (href : SHref) (g2 : Gap) (mq : Option (List Tok × Gap)) (name : SName)
   deriving Repr
 
 /-- a statement of the `@namespace` section -/
@@ -255,14 +261,42 @@ inductive SNs where
   | namespace_ (kw : Mask) (g1 : Gap) (pfx : Option (Cps × Gap)) (uri : SHref) (g2 : Gap)
   deriving Repr
 
-/-- `[@charset "enc";] lead (import-section) (namespace-section) (rules) EOF` — the order CSS prescribes
-(`cssstylesheet.py:182-246`: a rule out of order is dropped) -/
+/-- `name g1 : g2 value g3` inside `@variables` -/
+structure SVarDecl where
+  name : Cps
+  nameSp : Mask := []
+  g1 : Gap := []
+  g2 : Gap := []
+  value : List Tok
+  g3 : Gap := []
+  deriving Repr
+
+/-- `{ lead (decl ; gap)* [last] }` — comments inside the block of `@variables` are spelling (the DOM shows the
+variables as a mapping) -/
+structure SVarBlock where
+  lead : Gap := []
+  items : List (SVarDecl × Gap) := []
+  last : Option SVarDecl := none
+  deriving Repr
+
+/-- a statement of the `@variables` section (after the `@namespace` rules, before the first style / `@media` /
+`@page` / `@font-face` rule: `cssstylesheet.py:248-264`, `:818-842`) -/
+inductive SVar where
+  | comment (body : Cps)
+  | unknown (toks : List Tok)
+  /-- `@variables g0 { block }` -/
+  | variables (kw : Mask) (g0 : Gap) (block : SVarBlock)
+  deriving Repr
+
+/-- `[@charset "enc";] lead (import-section) (namespace-section) (variables-section) (rules) EOF` — the order
+CSS prescribes (`cssstylesheet.py:182-264`: a rule out of order is dropped) -/
 structure SSheet where
   /-- `@charset "enc";` must be the first thing in the sheet, written exactly so (quote style aside) -/
   charset : Option (Quote × Cps) := none
   lead : WGap := []
   imports : List (SImp × WGap) := []
   namespaces : List (SNs × WGap) := []
+  variables : List (SVar × WGap) := []
   rules : SRules := .nil
 
 /-! ### `erase`: the abstract sheet a spelled sheet denotes -/
@@ -313,7 +347,7 @@ def SRule.erase : SRule → ARule
   | .comment b => .comment b
   | .style sel blk => .style sel.erase blk.erase
   | .unknown t => .unknown t
-  | .media _ _ mq _ _ rules => .media (strip mq) none rules.erase
+  | .media _ _ mq _ name _ rules => .media (strip mq) (storedName (name.map (·.2.1))) rules.erase
   | .fontface _ _ blk => .fontface blk.erase
   | .page _ _ sel _ blk => .page sel.name sel.pseudo blk.eraseItems blk.eraseMargins
 def SRules.erase : SRules → List ARule
@@ -324,16 +358,31 @@ end
 def SImp.erase : SImp → ARule
   | .comment b => .comment b
   | .unknown t => .unknown t
-  | .import_ _ _ href _ mq => .import_ href.value (mq.map (fun p => strip p.1)) none
+  | .import_ _ _ href _ mq name => .import_ href.value (mq.map (fun p => strip p.1)) (storedName (name.map (·.2.1)))
 
 def SNs.erase : SNs → ARule
   | .comment b => .comment b
   | .unknown t => .unknown t
   | .namespace_ _ _ pfx uri _ => .namespace_ ((pfx.map (·.1)).getD []) uri.value
 
+def SVarDecl.erase (d : SVarDecl) : Cps × List Tok := (d.name, strip d.value)
+
+/-- the mapping `@variables` denotes, as an ordered list: a name declared again takes the place of its first
+declaration with the new value (`cssvariablesdeclaration.py:166-190`) -/
+def aVarsAdd (acc : List (Cps × List Tok)) (v : Cps × List Tok) : List (Cps × List Tok) :=
+  if acc.any (fun e => e.1 = v.1) then acc.map (fun e => if e.1 = v.1 then v else e) else acc ++ [v]
+
+def SVarBlock.erase (b : SVarBlock) : List (Cps × List Tok) :=
+  (b.items.map (fun p => p.1.erase) ++ (b.last.map SVarDecl.erase).toList).foldl aVarsAdd []
+
+def SVar.erase : SVar → ARule
+  | .comment b => .comment b
+  | .unknown t => .unknown t
+  | .variables _ _ blk => .variables blk.erase
+
 def SSheet.erase (s : SSheet) : ASheet :=
   (s.charset.map (fun c => ARule.charset c.2)).toList ++ s.imports.map (·.1.erase) ++ s.namespaces.map (·.1.erase)
-    ++ s.rules.erase
+    ++ s.variables.map (·.1.erase) ++ s.rules.erase
 
 /-! ### `render`: the tokens of a spelled sheet -/
 
@@ -387,6 +436,19 @@ def SHref.tok : SHref → Tok
         | some q => quoteStr q h
         | none => h) ++ (post.map WsChar.cp ++ [0x29]))), 0⟩
 
+/-- a STRING token -/
+def strTok (q : Quote) (n : Cps) : Tok := ⟨.string, quoteStr q n, 0⟩
+
+/-- the tokens of the optional name -/
+def nameToks : SName → List Tok
+  | some (q, n, g) => strTok q n :: Gap.toks g
+  | none => []
+
+/-- the STRING token of the optional name -/
+def nameTok? : SName → Option Tok
+  | some (q, n, _) => some (strTok q n)
+  | none => none
+
 def SPageItem.toks : SPageItem → List Tok
   | .item i => i.toks
   | .margin n kw g blk =>
@@ -412,9 +474,9 @@ def SRule.toks : SRule → List Tok
   | .comment b => [commentTok b]
   | .style sel blk => sel.toks ++ lbraceTok :: (blk.toks ++ [rbraceTok])
   | .unknown t => t
-  | .media kw g1 mq g2 lead rules =>
-    atTok .mediaSym kw "media" :: (Gap.toks g1 ++ (mq ++ (Gap.toks g2 ++ lbraceTok ::
-      (WGap.toks lead ++ (rules.toks ++ [rbraceTok])))))
+  | .media kw g1 mq g2 name lead rules =>
+    atTok .mediaSym kw "media" :: (Gap.toks g1 ++ (mq ++ (Gap.toks g2 ++ (nameToks name ++ lbraceTok ::
+      (WGap.toks lead ++ (rules.toks ++ [rbraceTok]))))))
   | .fontface kw g1 blk =>
     atTok .fontFaceSym kw "font-face" :: (Gap.toks g1 ++ lbraceTok :: (blk.toks ++ [rbraceTok]))
   | .page kw g0 sel g1 blk =>
@@ -431,8 +493,8 @@ def impMqToks : Option (List Tok × Gap) → List Tok
 def SImp.toks : SImp → List Tok
   | .comment b => [commentTok b]
   | .unknown t => t
-  | .import_ kw g1 href g2 mq =>
-    atTok .importSym kw "import" :: (Gap.toks g1 ++ href.tok :: (Gap.toks g2 ++ (impMqToks mq ++ [semiTok])))
+  | .import_ kw g1 href g2 mq name =>
+    atTok .importSym kw "import" :: (Gap.toks g1 ++ href.tok :: (Gap.toks g2 ++ (impMqToks mq ++ (nameToks name ++ [semiTok]))))
 
 def nsPfxToks : Option (Cps × Gap) → List Tok
   | some (p, g) => identTok p :: Gap.toks g
@@ -452,6 +514,30 @@ def renderNss : List (SNs × WGap) → List Tok
   | [] => []
   | (r, w) :: rest => r.toks ++ (WGap.toks w ++ renderNss rest)
 
+def SVarDecl.toks (d : SVarDecl) : List Tok :=
+  identTok (spell d.nameSp d.name) :: (Gap.toks d.g1 ++ colonTok :: (Gap.toks d.g2 ++ (d.value ++ Gap.toks d.g3)))
+
+def renderVarItems : List (SVarDecl × Gap) → List Tok
+  | [] => []
+  | (d, g) :: rest => d.toks ++ semiTok :: (Gap.toks g ++ renderVarItems rest)
+
+def renderLastVar : Option SVarDecl → List Tok
+  | none => []
+  | some d => d.toks
+
+/-- the tokens between `{` and `}` -/
+def SVarBlock.toks (b : SVarBlock) : List Tok := Gap.toks b.lead ++ (renderVarItems b.items ++ renderLastVar b.last)
+
+def SVar.toks : SVar → List Tok
+  | .comment b => [commentTok b]
+  | .unknown t => t
+  | .variables kw g0 blk =>
+    atTok .variablesSym kw "variables" :: (Gap.toks g0 ++ lbraceTok :: (blk.toks ++ [rbraceTok]))
+
+def renderVars : List (SVar × WGap) → List Tok
+  | [] => []
+  | (r, w) :: rest => r.toks ++ (WGap.toks w ++ renderVars rest)
+
 /-- `@charset ` (one token, with its space: `tokenize2.py:96-104`), the string, `;` -/
 def charsetToks (c : Quote × Cps) : List Tok :=
   [⟨.charsetSym, CssVerif.Proto.cps "@charset ", 0⟩, ⟨.string, quoteStr c.1 c.2, 0⟩, semiTok]
@@ -463,7 +549,8 @@ def charsetPart : Option (Quote × Cps) → List Tok
 /-- what the tokenizer (`fullsheet=True`) hands to `CSSStyleSheet._setCssText` -/
 def render (s : SSheet) : List Tok :=
   charsetPart s.charset ++
-  (WGap.toks s.lead ++ (renderImps s.imports ++ (renderNss s.namespaces ++ (s.rules.toks ++ [eofTok]))))
+  (WGap.toks s.lead ++ (renderImps s.imports ++ (renderNss s.namespaces ++ (renderVars s.variables ++
+    (s.rules.toks ++ [eofTok])))))
 
 /-! ## the DOM projection -/
 
@@ -490,6 +577,9 @@ def projItems (items : List Item) : List AItem := items.filterMap projItem
 
 def projMargin (m : Margin) : AMargin := ⟨m.name, projItems m.items⟩
 
+/-- a variable as the DOM shows it: the key of the mapping is the normalised name -/
+def projVar (v : Var) : Cps × List Tok := (normalize v.1.val, clean v.2)
+
 /-- what an opaque at-rule of `Struct` holds: its tokens are parsed again by the functions of
 `Model/AtRules.lean` (the same functions the oracle `withAtRules O` answers with) -/
 def projAt (O : Oracle) (M : List Cps) (k : Kind) (toks : List Tok) : ARule :=
@@ -497,7 +587,7 @@ def projAt (O : Oracle) (M : List Cps) (k : Kind) (toks : List Tok) : ARule :=
   | .charset => .charset ((charsetEncoding toks).getD [])
   | .import_ =>
     match importRule O toks with
-    | some i => .import_ i.href (i.media.map clean) i.name
+    | some i => .import_ i.href (i.media.map clean) (storedName i.name)
     | none => .other .import_
   | .fontface => .fontface (projItems ((fontFaceRule O toks).getD []))
   | .page =>
@@ -505,6 +595,11 @@ def projAt (O : Oracle) (M : List Cps) (k : Kind) (toks : List Tok) : ARule :=
     | .parsed p => .page p.sel.name p.sel.pseudo (projItems p.items) (p.margins.map projMargin)
     | .stub => .page none none [] []
     | .unmodelled => .other .page
+  | .variables =>
+    match variablesRule O toks with
+    | .parsed vs => .variables (vs.map projVar)
+    | .stub => .variables []
+    | .unmodelled => .other .variables
   | k => .other k
 
 mutual
@@ -515,7 +610,7 @@ def projRule (O : Oracle) (M : List Cps) : Rule → ARule
   | .at_ k toks => projAt O M k toks
   | .ns p u _ => .namespace_ p u
   | .media none _ => .media [] none []
-  | .media (some (mq, name)) rules => .media (clean mq) (name.map (fun t => stringValue t.val)) (projRules O M rules)
+  | .media (some (mq, name)) rules => .media (clean mq) (storedName (name.map (fun t => stringValue t.val))) (projRules O M rules)
 def projRules (O : Oracle) (M : List Cps) : List Rule → List ARule
   | [] => []
   | r :: rs => projRule O M r :: projRules O M rs
